@@ -91,13 +91,14 @@ Definition u_run_code (a : sx) : sx :=
   | _ => bad_input
   end.
 
-(* unit 211: (prec mode decimals count) -> (in the double-rounding class?  the [prec] digit quotient  round_code  round_q) *)
+(* unit 211: (prec mode decimals count) -> (in the double-rounding class?  the [prec] digit quotient  round_code  round_q  in the exact class of the HALF modes?) *)
 Definition of_rres (r : rres) : sx := match r with ROk x => ok (of_Q x) | RInvalid => err E_OTHER end.
 Definition u_dr_class (a : sx) : sx :=
   match a with
   | L [p; m; d; x] => match as_nat p, as_rmode m, as_nat d, as_Q x with
                       | Some p, Some m, Some d, Some x =>
-                          ok (L [A (if dr_class p m d x then 1 else 0); of_Q (sig_round p x); of_rres (round_code p true m d x); of_Q (round_q m d x)])
+                          ok (L [A (if dr_class p m d x then 1 else 0); of_Q (sig_round p x); of_rres (round_code p true m d x); of_Q (round_q m d x);
+                                 A (if dr_class_half p m d x then 1 else 0)])
                       | _, _, _, _ => bad_input end
   | _ => bad_input
   end.
